@@ -1860,3 +1860,362 @@ def b_filters(D):
                                 tol=0 if exact else 1e-7, group_kind='determinism' if exact else 'forms',
                                 schema=_filter_schema(kind, c), heavy=True, repeat=(variant == 'plain')))
     return out
+
+
+# ---------------------------------------------------------------------------------------
+# 11. runner
+def all_cases(D):
+    cases, errors, seen = [], [], set()
+    for nm, f in BUILDERS.items():
+        if id(f) in seen:
+            continue
+        seen.add(id(f))
+        try:
+            cases += f(D)
+        except Exception:
+            errors.append(([k for k, g in BUILDERS.items() if g is f], traceback.format_exc()))
+    return cases, errors
+
+
+def _global_state():
+    s = np.random.get_state()
+    return (s[0], s[1].tobytes(), s[2], s[3], s[4]), random.getstate()
+
+
+class Runner:
+    def __init__(self, r=None, seed=0, n_rounds=1, verbose=False):
+        self.r, self.seed, self.n_rounds, self.verbose = r, seed, n_rounds, verbose
+        self.fails = []            # dict(callable, form, kind, what, replay)
+        self.brokens = []          # (name, detail)
+        self.findings = []         # recorded findings on the reference tree
+        self.blocked = {}          # callable -> environment probe message
+        self.global_rng_users = []
+        self.exempt_seen = set()
+        self.forms = {}            # callable -> [forms]
+        self.kind_counts = dict(mutation=0, determinism=0, forms=0, schema=0)
+        self.group_ref = {}
+        self.first = {}            # (name, form) -> snapshot of the first result
+        self.timing = {}
+
+    def say(self, *a):
+        if self.verbose:
+            print(*a, flush=True)
+
+    def fail(self, case_name, form, kind, what, D, extra=None):
+        rep = dict(key=f"{case_name}|{kind}", callable=case_name, form=form, kind=kind, seed=self.seed,
+                   round=D.rnd if D is not None else 0, n_rounds=self.n_rounds, what=what)
+        if D is not None:
+            rep['data'] = D.params()
+        if extra:
+            rep.update(extra)
+        self.fails.append(dict(callable=case_name, form=form, kind=kind, what=what, replay=rep))
+        self.say(f"FAIL [{kind}] {case_name} <{form}>: {what}")
+
+    def broken(self, name, detail):
+        self.brokens.append((name, detail))
+        self.say(f"BROKEN {name}: {str(detail)[-600:]}")
+
+    # -- one call with argument snapshots
+    def one_call(self, case, D):
+        ctx = case.build(D)
+        w = dict(ctx.watch)
+        w['<defaults>'] = _defaults_of(case.name)
+        before = snap(w, True)
+        refs = [(p, o, snap(o, True)) for p, o in collect_refs(w)]
+        ex = ctx.exempt
+
+        def exempt(p):
+            hit = any(p == e or p.startswith(e + '.') or p.startswith(e + '[') or p.startswith(e + ' ')
+                      for e in ex)
+            if hit:
+                self.exempt_seen.add(f"{case.name}: {p.split(' ')[0]}")
+            return hit
+        g0 = _global_state()
+        exc = tb = res = None
+        with warnings.catch_warnings():
+            warnings.simplefilter('ignore')
+            try:
+                res = ctx.call()
+            except Exception as e:          # noqa
+                exc, tb = e, traceback.format_exc()
+        g1 = _global_state()
+        after = snap(w, True)
+        mut = [p for p in snap_diffs(before, after) if not exempt(p)]
+        for p, o, s in refs:
+            if snap(o, True) != s and not exempt(p) and not any(m == p or m.startswith(p) for m in mut):
+                mut.append(p + ' (original object modified in place)')
+        sn = None
+        if exc is None:
+            sn = snap((res, ctx.recv() if ctx.recv else None))
+        return dict(ctx=ctx, res=res, exc=exc, tb=tb, mut=mut, rng=(g0 != g1), snap=sn)
+
+    def handle_exception(self, case, c, D):
+        msg = f"{type(c['exc']).__name__}: {c['exc']}"
+        if 'read-only' in msg or 'read only' in msg:
+            self.fail(case.name, case.form, 'mutation',
+                      f"attempted in-place write to caller's data ({msg})", D)
+        else:
+            self.broken(f"{case.name} <{case.form}>", c['tb'])
+
+    def ensure_ref(self, case, D, cases):
+        if case.group and case.group not in self.group_ref:
+            first = next(k for k in cases if k.group == case.group)
+            if first is not case:
+                self.check_case(first, D, cases)
+
+    def check_case(self, case, D, cases, interleave=()):
+        r = self.r
+        self.forms.setdefault(case.name, [])
+        if case.form not in self.forms[case.name]:
+            self.forms[case.name].append(case.form)
+        if r is not None:
+            r.case((case.name, case.form, D.rnd), sample=dict(callable=case.name, form=case.form))
+        try:
+            c1 = self.one_call(case, D)
+        except Exception:
+            self.broken(f"{case.name} <{case.form}> (building the arguments)", traceback.format_exc())
+            return
+        # mutation is checked whatever the outcome of the call was
+        self.kind_counts['mutation'] += 1
+        if c1['mut']:
+            self.fail(case.name, case.form, 'mutation',
+                      f"argument(s) changed by the call: {c1['mut'][:6]}", D)
+        blocked = case.env_blocked and env_probe(case.env_blocked)
+        if blocked:
+            self.blocked[case.name] = f"{case.env_blocked}: {blocked}"
+            if c1['exc'] is None:
+                self.broken(f"{case.name} <{case.form}>", "environment probe fails but the call succeeded")
+            return
+        if case.expect_exc is not None:
+            if not isinstance(c1['exc'], case.expect_exc):
+                self.broken(f"{case.name} <{case.form}>",
+                            f"documented {case.expect_exc.__name__} not raised: {c1['exc']!r}")
+            return
+        if c1['exc'] is not None:
+            if case.finding:
+                f = dict(key=case.finding, callable=case.name, form=case.form,
+                         what=f"{type(c1['exc']).__name__}: {c1['exc']}")
+                if not any(g['key'] == f['key'] and g['callable'] == f['callable'] for g in self.findings):
+                    self.findings.append(f)
+                    if REPORT_FINDINGS_AS_VIOLATIONS:
+                        self.fail(case.name, case.form, 'forms', f"documented form raises {f['what']}", D,
+                                  extra=dict(key=case.finding))
+                return
+            self.handle_exception(case, c1, D)
+            return
+        # global generator
+        if case.seeded == 'global':
+            if c1['rng']:
+                u = f"{case.name} <{case.form}>"
+                if u not in self.global_rng_users:
+                    self.global_rng_users.append(u)
+        elif c1['rng']:
+            self.fail(case.name, case.form, 'determinism',
+                      "numpy/python GLOBAL random generator state changed by the call "
+                      f"(seeded={case.seeded})", D)
+        # b. determinism
+        if case.repeat and case.seeded != 'global':
+            self.kind_counts['determinism'] += 1
+            for other in interleave:
+                try:
+                    with warnings.catch_warnings():
+                        warnings.simplefilter('ignore')
+                        other.build(D).call()
+                except Exception:
+                    pass
+            try:
+                c2 = self.one_call(case, D)
+            except Exception:
+                self.broken(f"{case.name} <{case.form}> (second call)", traceback.format_exc())
+                return
+            if c2['exc'] is not None:
+                self.fail(case.name, case.form, 'determinism',
+                          f"second call with equal inputs raised {type(c2['exc']).__name__}: {c2['exc']}", D)
+            elif c2['snap'] != c1['snap']:
+                d = snap_diffs(c1['snap'], c2['snap'])
+                self.fail(case.name, case.form, 'determinism',
+                          f"two calls with equal inputs differ bit-wise at {d[:5]} "
+                          f"([0]=returned value, [1]=receiver state)", D)
+            if c2['mut'] and not c1['mut']:
+                self.fail(case.name, case.form, 'mutation',
+                          f"argument(s) changed by the second call: {c2['mut'][:6]}", D)
+            if not case.heavy:
+                self.first[(case.name, case.form)] = (case, c1['snap'])
+        # c. forms
+        if case.group:
+            if case.group not in self.group_ref:
+                self.group_ref[case.group] = (case.form, c1['res'])
+            else:
+                self.kind_counts[case.group_kind] = self.kind_counts.get(case.group_kind, 0) + 1
+                rform, ref = self.group_ref[case.group]
+                try:
+                    want = case.expect(ref) if case.expect else ref
+                    d = values_differ(want, c1['res'], case.tol, case.scale)
+                except Exception:
+                    d = "comparison failed: " + traceback.format_exc()[-300:]
+                if d:
+                    self.fail(case.name, case.form, case.group_kind,
+                              f"result differs from the result for form <{rform}>: {d}", D,
+                              extra=dict(reference_form=rform))
+        # d. schema
+        if case.schema is not None:
+            self.kind_counts['schema'] += 1
+            try:
+                pr = case.schema(c1['res'], c1['ctx'])
+            except Exception:
+                pr = ["schema check crashed: " + traceback.format_exc()[-400:]]
+            if pr:
+                self.fail(case.name, case.form, 'schema', '; '.join(pr[:4]), D)
+
+    def third_pass(self, D):
+        for (name, form), (case, s1) in list(self.first.items()):
+            try:
+                c3 = self.one_call(case, D)
+            except Exception:
+                continue
+            if c3['exc'] is None and c3['snap'] != s1:
+                d = snap_diffs(s1, c3['snap'])
+                self.fail(name, form, 'determinism',
+                          f"call repeated at the end of the run differs bit-wise from the first call at {d[:5]} "
+                          "(state carried between calls)", D)
+        self.first = {}
+
+    def check_constants(self):
+        u = P().util
+        for k, lit in UTIL_CONSTANTS.items():
+            self.kind_counts['schema'] += 1
+            got = getattr(u, k, None)
+            if got is None or list(got) != list(lit):
+                self.fail(f"util.{k}", 'constant', 'schema',
+                          f"pyins.util.{k} = {got!r} differs from the documented column list {lit}", None)
+
+    def run_round(self, rnd):
+        t0 = time.time()
+        D = Data(self.seed, rnd)
+        fp = D.fingerprint()
+        cases, errors = all_cases(D)
+        for names, tb in errors:
+            self.broken(f"builder for {names[:3]}...", tb)
+        self.group_ref = {}
+        py = random.Random(self.seed + 1977 + rnd)
+        cheap = [c for c in cases if not c.heavy and c.seeded != 'global' and not c.finding
+                 and not c.env_blocked and c.expect_exc is None]
+        for case in cases:
+            t = time.time()
+            inter = py.sample(cheap, 2) if (cheap and not case.heavy) else (py.sample(cheap, 3) if cheap else ())
+            self.check_case(case, D, cases, inter)
+            self.timing[case.name] = self.timing.get(case.name, 0.0) + time.time() - t
+        self.third_pass(D)
+        if D.fingerprint() != fp:
+            self.broken('data-set integrity', 'base arrays of the harness data set were modified')
+        self.say(f"round {rnd}: {len(cases)} cases, {time.time() - t0:.1f}s")
+        return D, cases
+
+
+def run_dynamic(r, n_rounds=1):
+    """Run the dynamic validation; returns the number of distinct failing (callable, kind)."""
+    t0 = time.time()
+    g_start = _global_state()
+    R = Runner(r, r.seed, n_rounds, verbose=bool(getattr(r, 'verbose', False)))
+    api = enumerate_api()
+    names = [n for n, _ in api]
+    R.check_constants()
+    ncases = 0
+    params = []
+    for rnd in range(max(1, n_rounds)):
+        try:
+            D, cases = R.run_round(rnd)
+            ncases += len(cases)
+            params.append(D.params())
+        except Exception:
+            R.broken(f"round {rnd}", traceback.format_exc())
+    # coverage: fail closed
+    uncovered = []
+    for n in names:
+        if n not in BUILDERS:
+            uncovered.append(n)
+            r.broken('coverage', n, 'no argument builder')
+        elif not R.forms.get(n):
+            uncovered.append(n)
+            r.broken('coverage', n, 'builder produced no executed case')
+    seen_b = set()
+    for nm, det in R.brokens:
+        key = (nm.split(' <')[0], str(det).strip().splitlines()[-1][:120] if str(det).strip() else '')
+        if key in seen_b:
+            continue
+        seen_b.add(key)
+        if len(seen_b) <= 12:
+            r.broken('dynamic', nm, det)
+    # distinct failures
+    distinct = {}
+    for f in R.fails:
+        distinct.setdefault((f['callable'], f['kind']), f)
+    for f in list(distinct.values())[:5]:
+        r.violation(f"C19 {f['kind']}: {f['callable']} <{f['form']}>: {f['what']}", f['replay'])
+    kinds_used = {}
+    for n, fs in R.forms.items():
+        for f in fs:
+            k = f.split('/')[0].split(',')[0].split('|')[0].split(':')[-1]
+            kinds_used[k] = kinds_used.get(k, 0) + 1
+    slow = sorted(R.timing.items(), key=lambda kv: -kv[1])[:5]
+    r.coverage['dynamic'] = dict(
+        public_callables=len(names), covered=len(names) - len(uncovered), uncovered=uncovered,
+        extra_callables=[e for e in EXTRA if R.forms.get(e)],
+        by_kind_of_member={k: sum(1 for _, kk in api if kk == k) for k in sorted(set(k for _, k in api))},
+        rounds=max(1, n_rounds), cases=ncases, checks=R.kind_counts,
+        forms_per_callable={n: len(R.forms.get(n, [])) for n in names + EXTRA},
+        forms_min=min([len(R.forms.get(n, [])) for n in names] or [0]),
+        forms_total=sum(len(v) for v in R.forms.values()),
+        leading_form_token_distribution=dict(sorted(kinds_used.items(), key=lambda kv: -kv[1])[:25]),
+        form_legend=("ndarray=C-contiguous float64 (0-d: np.float64); fortran=F-ordered; strided=non-contiguous "
+                     "view of a larger array (0-d: 0-d ndarray); list/tuple=nested python (0-d: float); "
+                     "pandas=Series/DataFrame; /stack=n rows, /single=one row, /stack1=1-row stack; "
+                     "Series(row)=df.iloc[k], Series(own)=free-standing; DataFrame(F)=Fortran-ordered block"),
+        data=params,
+        global_rng_users=sorted(R.global_rng_users),
+        global_rng_untouched_overall=None,
+        documented_exemptions=sorted(R.exempt_seen),
+        blocked_by_environment=R.blocked,
+        findings=R.findings,
+        failures=[dict(callable=f['callable'], form=f['form'], kind=f['kind'], what=f['what'][:300])
+                  for f in distinct.values()],
+        failures_total=len(R.fails), broken=len(R.brokens),
+        slowest=[(k, round(v, 2)) for k, v in slow], wall_s=round(time.time() - t0, 1))
+    r.coverage['dynamic']['global_rng_untouched_overall'] = (
+        (_global_state() == g_start) if not R.global_rng_users else 'documented users ran')
+    return len(distinct)
+
+
+def replay(obj):
+    """Re-run one recorded failing case on the implementation; 1 if it still fails."""
+    print("C19 dynamic replay:", {k: obj.get(k) for k in ('callable', 'form', 'kind', 'seed', 'round')})
+    R = Runner(None, int(obj.get('seed', 0)), int(obj.get('n_rounds', 1)), verbose=True)
+    if obj.get('form') == 'constant':
+        R.check_constants()
+    else:
+        D = Data(R.seed, int(obj.get('round', 0)))
+        cases, errors = all_cases(D)
+        for names, tb in errors:
+            print("builder error", names, tb)
+        hit = [c for c in cases if c.name == obj['callable'] and c.form == obj['form']]
+        if not hit:
+            print("case not found (builders changed?)")
+            return 1
+        case = hit[0]
+        cheap = [c for c in cases if not c.heavy and c.seeded != 'global' and not c.finding
+                 and not c.env_blocked and c.expect_exc is None]
+        R.ensure_ref(case, D, cases)
+        if case.group and R.group_ref.get(case.group, (None,))[0] != case.form or not case.group:
+            R.check_case(case, D, cases, random.Random(R.seed).sample(cheap, 2) if cheap else ())
+        R.third_pass(D)
+        for nm, det in R.brokens:
+            print("BROKEN", nm, str(det)[-800:])
+    same = [f for f in R.fails if f['callable'] == obj['callable'] and f['kind'] == obj['kind']]
+    other = [f for f in R.fails if f not in same]
+    for f in same:
+        print(f"still fails [{f['kind']}] {f['callable']} <{f['form']}>: {f['what']}")
+    for f in other:
+        print(f"(other failure) [{f['kind']}] {f['callable']} <{f['form']}>: {f['what']}")
+    if not same:
+        print("no failure of the recorded kind on replay")
+    return 1 if (same or (R.brokens and not R.fails)) else 0
